@@ -77,3 +77,192 @@ fn check(name: &str, load: fn(&mut SparqlDatabase, &str)) {
     assert!(lexical(&a) == lexical(&c), "N-Triples and Turtle loaders disagree on the same 1500-line document");
     assert!(lexical(&a) == lexical(&d), "N-Triples and N-Quads loaders disagree on the same 1500-line document");
 }
+
+// ---- prefixed names: declarations, chunk boundaries, rebinding (C13: "prefix declarations seen by one chunk only") ----
+const NS_A: &str = "http://one.example/";
+const NS_B: &str = "http://two.example/";
+
+/// `n` statements `ex:s<i> ex:p<i%3> ex:o<i%7> .` under the namespace `ns`, numbered from `from`
+fn prefixed_lines(ns: &str, from: usize, n: usize) -> (String, L) {
+    let mut s = String::new();
+    let mut l = L::new();
+    for i in from..from + n {
+        s.push_str(&format!("ex:s{} ex:p{} ex:o{} .\n", i, i % 3, i % 7));
+        l.insert((format!("{}s{}", ns, i), format!("{}p{}", ns, i % 3), format!("{}o{}", ns, i % 7)));
+    }
+    (s, l)
+}
+fn prefixed_doc(ns: &str, n: usize) -> (String, L) {
+    let (body, l) = prefixed_lines(ns, 0, n);
+    (format!("@prefix ex: <{}> .\n{}", ns, body), l)
+}
+fn report(name: &str, ctx: &str, got: &L, want: &L) {
+    if got != want {
+        let missing: Vec<_> = want.difference(got).take(3).collect();
+        let foreign: Vec<_> = got.difference(want).take(3).collect();
+        panic!("{}: {}: store has {} quads, expected {}; missing e.g. {:?}; foreign e.g. {:?}", name, ctx, got.len(), want.len(), missing, foreign);
+    }
+}
+fn check_prefixed(name: &str, load: fn(&mut SparqlDatabase, &str)) {
+    let sizes: Vec<usize> = if std::env::var("VERIF_TIER").map_or(false, |v| v == "thorough") { vec![0, 1, 2, 998, 999, 1000, 1001, 1999, 2000, 2001, 3500] } else { vec![0, 1, 2, 998, 999, 1000, 1001, 2001] };
+    for kind in 0..3 { for n in sizes.iter().copied() {
+        let (mut db, before) = prior(kind);
+        let (text, triples) = prefixed_doc(NS_A, n);
+        load(&mut db, &text);
+        let want: L = before.union(&triples).cloned().collect();
+        report(name, &format!("prior content {}, document of one @prefix line and {} prefixed statements", ["empty", "non-empty", "emptied again"][kind], n), &lexical(&db), &want);
+    }}
+}
+#[test] fn w__parse_turtle__prefixed_names() { check_prefixed("parse_turtle", |db, t| db.parse_turtle(t)); }
+#[test] fn w__parse_n3__prefixed_names() { check_prefixed("parse_n3", |db, t| db.parse_n3(t)); }
+
+/// what bound the label `ex` before the document is loaded
+fn bind_before(how: usize, db: &mut SparqlDatabase) -> (L, &'static str) {
+    match how {
+        0 => { let (t, l) = prefixed_doc(NS_A, 2); db.parse_turtle(&t); (l, "an earlier Turtle document") }
+        1 => { let (t, l) = prefixed_doc(NS_A, 2); db.parse_n3(&t); (l, "an earlier N3 document") }
+        2 => { db.set_prefixes([("ex".to_string(), NS_A.to_string())].into()); (L::new(), "set_prefixes") }
+        3 => { db.register_prefixes_from_query(&format!("PREFIX ex: <{}> SELECT * WHERE {{ ?s ?p ?o }}", NS_A)); (L::new(), "a query's PREFIX line") }
+        _ => { db.parse_rdf(&format!("<rdf:RDF xmlns:rdf=\"http://www.w3.org/1999/02/22-rdf-syntax-ns#\" xmlns:ex=\"{}\"><rdf:Description rdf:about=\"{}s0\"><ex:p0 rdf:resource=\"{}o0\"/></rdf:Description></rdf:RDF>", NS_A, NS_A, NS_A));
+               ([(format!("{}s0", NS_A), format!("{}p0", NS_A), format!("{}o0", NS_A))].into(), "an earlier RDF/XML document") }
+    }
+}
+fn check_rebinding(name: &str, load: fn(&mut SparqlDatabase, &str)) {
+    for how in 0..5 { for n in [1usize, 3, 1500] {
+        let mut db = SparqlDatabase::new();
+        let (before, what) = bind_before(how, &mut db);
+        report(name, &format!("setup by {}", what), &lexical(&db), &before);
+        let (text, triples) = prefixed_doc(NS_B, n);
+        load(&mut db, &text);
+        let want: L = before.union(&triples).cloned().collect();
+        report(name, &format!("label ex: bound to <{}> by {}, then a document declaring @prefix ex: <{}> with {} statements", NS_A, what, NS_B, n), &lexical(&db), &want);
+    }}
+}
+#[test] fn w__parse_turtle__prefix_declared_by_the_document_wins() { check_rebinding("parse_turtle", |db, t| db.parse_turtle(t)); }
+#[test] fn w__parse_n3__prefix_declared_by_the_document_wins() { check_rebinding("parse_n3", |db, t| db.parse_n3(t)); }
+
+fn check_redeclaration(name: &str, load: fn(&mut SparqlDatabase, &str)) {
+    for (first, second) in [(1usize, 1usize), (3, 2), (400, 300), (998, 5), (999, 5), (1000, 5), (1500, 700)] {
+        let (a, la) = prefixed_lines(NS_A, 0, first);
+        let (b, lb) = prefixed_lines(NS_B, first, second);
+        let text = format!("@prefix ex: <{}> .\n{}@prefix ex: <{}> .\n{}", NS_A, a, NS_B, b);
+        let mut db = SparqlDatabase::new();
+        load(&mut db, &text);
+        let want: L = la.union(&lb).cloned().collect();
+        report(name, &format!("one document: @prefix ex: <{}>, {} statements, @prefix ex: <{}>, {} statements", NS_A, first, NS_B, second), &lexical(&db), &want);
+    }
+}
+#[test] fn w__parse_turtle__prefix_redeclared_inside_the_document() { check_redeclaration("parse_turtle", |db, t| db.parse_turtle(t)); }
+#[test] fn w__parse_n3__prefix_redeclared_inside_the_document() { check_redeclaration("parse_n3", |db, t| db.parse_n3(t)); }
+
+// ---- RDF/XML (resource-valued properties of rdf:Description elements; the loader hands triples to workers in blocks of 8192) ----
+fn rdfxml_doc(n: usize) -> (String, L) {
+    let mut s = format!("<?xml version=\"1.0\"?>\n<rdf:RDF xmlns:rdf=\"http://www.w3.org/1999/02/22-rdf-syntax-ns#\" xmlns:e=\"http://e/\">\n");
+    let mut l = L::new();
+    for i in 0..n {
+        let (a, p, b) = (format!("http://e/s{}", i), format!("p{}", i % 3), format!("http://e/o{}", i % 7));
+        s.push_str(&format!("<rdf:Description rdf:about=\"{}\"><e:{} rdf:resource=\"{}\"/></rdf:Description>\n", a, p, b));
+        l.insert((a, format!("http://e/{}", p), b));
+    }
+    s.push_str("</rdf:RDF>\n");
+    (s, l)
+}
+#[test] fn w__parse_rdf__any() {
+    let sizes: Vec<usize> = if std::env::var("VERIF_TIER").map_or(false, |v| v == "thorough") { vec![0, 1, 2, 3, 1000, 8191, 8192, 8193, 16384, 16385, 20000] } else { vec![0, 1, 2, 3, 8191, 8192, 8193, 16385] };
+    for kind in 0..3 { for n in sizes.iter().copied() {
+        let (mut db, before) = prior(kind);
+        let (text, triples) = rdfxml_doc(n);
+        db.parse_rdf(&text);
+        let want: L = before.union(&triples).cloned().collect();
+        report("parse_rdf", &format!("prior content {}, RDF/XML document of {} descriptions", ["empty", "non-empty", "emptied again"][kind], n), &lexical(&db), &want);
+    }}
+}
+#[test] fn w__formats_agree__rdfxml_and_prefixed() {
+    for n in [3usize, 1500] {
+        let (nt, _) = doc(n);
+        let mut a = SparqlDatabase::new(); a.parse_ntriples_and_add(&nt);
+        let (xml, _) = rdfxml_doc(n);
+        let mut b = SparqlDatabase::new(); b.parse_rdf(&xml);
+        assert!(lexical(&a) == lexical(&b), "N-Triples and RDF/XML loaders disagree on the same {} triples", n);
+        let (ttl, _) = prefixed_doc("http://e/", n);
+        let mut c = SparqlDatabase::new(); c.parse_turtle(&ttl);
+        let mut d = SparqlDatabase::new(); d.parse_n3(&ttl);
+        let mut e = SparqlDatabase::new(); e.parse_ntriples_and_add(&{ let mut s = String::new(); for i in 0..n { s.push_str(&format!("<http://e/s{}> <http://e/p{}> <http://e/o{}> .\n", i, i % 3, i % 7)); } s });
+        assert!(lexical(&c) == lexical(&e), "Turtle with prefixed names and N-Triples disagree on the same {} triples", n);
+        assert!(lexical(&d) == lexical(&e), "N3 with prefixed names and N-Triples disagree on the same {} triples", n);
+    }
+}
+
+// ---- '#' inside terms, comments ------------------------------------------------------------------------------
+fn hash_doc(comments: bool, trailing: bool) -> (String, L) {
+    let mut s = String::new();
+    if comments { s.push_str("# a comment line with <http://e/not> <http://e/a> <http://e/triple> .\n"); }
+    s.push_str("<http://e/a#x> <http://e/p#q> <http://e/o#z> .\n");
+    s.push_str(if trailing { "<http://e/b> <http://e/p> <http://e/o> . # trailing comment\n" } else { "<http://e/b> <http://e/p> <http://e/o> .\n" });
+    s.push_str("<http://e/c> <http://e/p> \"lit # with hash\" .\n");
+    let l: L = [("http://e/a#x", "http://e/p#q", "http://e/o#z"), ("http://e/b", "http://e/p", "http://e/o")].iter().map(|t| (t.0.to_string(), t.1.to_string(), t.2.to_string())).collect();
+    (s, l)
+}
+fn check_hash(name: &str, load: fn(&mut SparqlDatabase, &str), comments: bool, trailing: bool) {
+    let (text, iri_triples) = hash_doc(comments, trailing);
+    let mut db = SparqlDatabase::new();
+    load(&mut db, &text);
+    let got = lexical(&db);
+    // the literal's stored form is checked by the literal tests below; here: it is ONE more triple and keeps its text
+    let lits: Vec<_> = got.iter().filter(|t| t.0 == "http://e/c").collect();
+    assert!(lits.len() == 1 && lits[0].2.contains("lit # with hash"), "{}: the literal \"lit # with hash\" is stored as {:?}", name, lits);
+    let rest: L = got.iter().filter(|t| t.0 != "http://e/c").cloned().collect();
+    report(name, "a document whose IRIs contain '#' (fragment identifiers)", &rest, &iri_triples);
+}
+#[test] fn w__parse_ntriples_and_add__hash_inside_terms() { check_hash("parse_ntriples_and_add", |db, t| db.parse_ntriples_and_add(t), false, false); }
+#[test] fn w__parse_nquads_and_add__hash_inside_terms() { check_hash("parse_nquads_and_add", |db, t| db.parse_nquads_and_add(t), false, false); }
+#[test] fn w__parse_turtle__hash_inside_terms() { check_hash("parse_turtle", |db, t| db.parse_turtle(t), true, false); }
+#[test] fn w__parse_n3__hash_inside_terms() { check_hash("parse_n3", |db, t| db.parse_n3(t), true, true); }
+#[test] fn w__prefix_namespace_ending_in_hash() {
+    let text = "@prefix v: <http://e/v#> .\nv:a v:p v:b .\n";
+    let want: L = [("http://e/v#a".to_string(), "http://e/v#p".to_string(), "http://e/v#b".to_string())].into();
+    let mut a = SparqlDatabase::new(); a.parse_turtle(text);
+    report("parse_turtle", "@prefix v: <http://e/v#> and one prefixed statement", &lexical(&a), &want);
+    let mut b = SparqlDatabase::new(); b.parse_n3(text);
+    report("parse_n3", "@prefix v: <http://e/v#> and one prefixed statement", &lexical(&b), &want);
+}
+
+// ---- literals: representation-agnostic requirements of the property ----------------------------------------
+//  (1) "exactly the document's triples": terms that differ in the document stay different in the store;
+//  (2) "the same triples written in different formats load identically".
+const LITERAL_LINES: [(&str, &str); 3] = [
+    ("plain", "<http://e/d> <http://e/p> \"5\" .\n"),
+    ("language_tagged", "<http://e/d> <http://e/p> \"5\"@en .\n"),
+    ("typed", "<http://e/d> <http://e/p> \"5\"^^<http://www.w3.org/2001/XMLSchema#integer> .\n"),
+];
+fn objects(db: &SparqlDatabase) -> Vec<String> { lexical(db).into_iter().map(|t| t.2).collect() }
+fn check_distinct(name: &str, load: fn(&mut SparqlDatabase, &str)) {
+    let mut text = String::from("<http://e/d> <http://e/p> <http://e/5> .\n");
+    for (_, line) in LITERAL_LINES { text.push_str(line); }
+    let mut db = SparqlDatabase::new();
+    load(&mut db, &text);
+    let got = objects(&db);
+    assert!(got.len() == 4, "{}: a document with the four different objects <http://e/5>, \"5\", \"5\"@en, \"5\"^^xsd:integer of one subject and predicate loads {} triple(s): stored objects [{}]", name, got.len(), got.join("|"));
+}
+#[test] fn w__literals__distinct_terms_stay_distinct__ntriples() { check_distinct("parse_ntriples_and_add", |db, t| db.parse_ntriples_and_add(t)); }
+#[test] fn w__literals__distinct_terms_stay_distinct__nquads() { check_distinct("parse_nquads_and_add", |db, t| db.parse_nquads_and_add(t)); }
+#[test] fn w__literals__distinct_terms_stay_distinct__turtle() { check_distinct("parse_turtle", |db, t| db.parse_turtle(t)); }
+#[test] fn w__literals__distinct_terms_stay_distinct__n3() { check_distinct("parse_n3", |db, t| db.parse_n3(t)); }
+
+fn check_agree(name: &str, load: fn(&mut SparqlDatabase, &str), kind: usize) {
+    let (what, line) = LITERAL_LINES[kind];
+    let mut a = SparqlDatabase::new(); a.parse_ntriples_and_add(line);
+    let mut b = SparqlDatabase::new(); load(&mut b, line);
+    let (oa, ob) = (objects(&a), objects(&b));
+    assert!(oa.len() == 1 && ob.len() == 1, "{} literal: N-Triples loads {:?}, {} loads {:?} from the one-line document {:?}", what, oa, name, ob, line);
+    assert!(oa == ob, "{} literal: the line {:?} loads differently: [{}:{}|ntriples:{}]", what, line.trim_end(), name, ob[0], oa[0]);
+}
+#[test] fn w__literals__n3_agrees_with_ntriples_on_plain() { check_agree("n3", |db, t| db.parse_n3(t), 0); }
+#[test] fn w__literals__n3_agrees_with_ntriples_on_language_tagged() { check_agree("n3", |db, t| db.parse_n3(t), 1); }
+#[test] fn w__literals__n3_agrees_with_ntriples_on_typed() { check_agree("n3", |db, t| db.parse_n3(t), 2); }
+#[test] fn w__literals__turtle_agrees_with_ntriples_on_plain() { check_agree("turtle", |db, t| db.parse_turtle(t), 0); }
+#[test] fn w__literals__turtle_agrees_with_ntriples_on_language_tagged() { check_agree("turtle", |db, t| db.parse_turtle(t), 1); }
+#[test] fn w__literals__turtle_agrees_with_ntriples_on_typed() { check_agree("turtle", |db, t| db.parse_turtle(t), 2); }
+#[test] fn w__literals__nquads_agrees_with_ntriples_on_plain() { check_agree("nquads", |db, t| db.parse_nquads_and_add(t), 0); }
+#[test] fn w__literals__nquads_agrees_with_ntriples_on_language_tagged() { check_agree("nquads", |db, t| db.parse_nquads_and_add(t), 1); }
+#[test] fn w__literals__nquads_agrees_with_ntriples_on_typed() { check_agree("nquads", |db, t| db.parse_nquads_and_add(t), 2); }
